@@ -3,6 +3,7 @@ import SpoxModel.Model.Subgraph
 import SpoxModel.Model.SubgraphSpec
 import SpoxModel.Generated.SubgraphSpecs
 import SpoxModel.Generated.CallbackSites
+import SpoxModel.Generated.CallGraphData
 /-! Line-protocol handler for C19: run one control-flow constructor call (spec *generated from
     /repo*), followed by a list of later steps, on the model; report what every callback saw. -/
 namespace Drv.C19
@@ -74,6 +75,10 @@ def parseStep (s : String) : Except String Step :=
   | "infer" => .ok .infer
   | "valueProp" => .ok .valueProp
   | "inspect" => .ok .inspect
+  | "copy" => .ok .copy
+  | "graphMethod" => .ok .graphMethod
+  | "inline" => .ok .inline
+  | "varMethod" => .ok .varMethod
   | _ => .error "bad step"
 
 def errName : Err → String
@@ -121,7 +126,7 @@ def handle (req : Json) : Json :=
       (fun (acc : Except Err Node × World) _ => construct spec env cbs acc.2)
       ((.error .other : Except Err Node), (⟨[], fresh0⟩ : World))
     let (resJ, w2) := match res with
-      | .ok node => (Json.mkObj [("ok", toJson node.outVariadic)], runSteps extra node steps w1)
+      | .ok node => (Json.mkObj [("ok", toJson node.outVariadic)], runSteps Generated.CallGraphData.graph node steps w1)
       | .error e => (Json.mkObj [("err", errName e)], w1)
     let ids : List Nat := (cbl.map (fun (p : String × Nat × CbBehaviour) => p.2.1)).eraseDups
     return Json.mkObj [
@@ -130,7 +135,8 @@ def handle (req : Json) : Json :=
       ("counts", Json.mkObj (ids.map (fun i => (toString i, toJson (w2.count i))))),
       ("countsAfterCtor", Json.mkObj (ids.map (fun i => (toString i, toJson (w1.count i))))),
       ("order", toJson (spec.subgraphs.map (fun (p : String × ListExpr) => p.1))),
-      ("extraSites", toJson extra)]) with
+      ("extraSites", toJson extra),
+      ("sinkReachable", toJson (Generated.CallGraphData.graph.reachesSink Generated.CallGraphData.graph.allEntries))]) with
   | .ok j => j
   | .error e => Json.mkObj [("error", e)]
 
